@@ -135,10 +135,9 @@ def exec : Nat → Core → List Pc → Kont → Out
   | fuel+1, c, sp, .disconnect r =>
     match c.rw with
     | some w =>
-      let c1 := closeConn c w
-      match c1.conns[w]? with
-      | some (.dead _) => exec fuel c1 sp (.discTail (some w) r)
-      | _ => ⟨c1, .discWait w r, sp⟩
+      -- `await asyncio.shield(writer.wait_closed())`: always a suspension point (the shielded wait runs in a task
+      -- of its own); it is resumed once `connection_lost` has run (label `run t .go` at `discWait`)
+      ⟨closeConn c w, .discWait w r, sp⟩
     | none => exec fuel c sp (.discTail none r)
   | fuel+1, c, sp, .discTail w r =>
     if c.rw = w then
